@@ -579,6 +579,7 @@ class Session:
                 f"C04|raw|draw_screen|raise:{type(e).__name__}|last-row:{shape}",
                 f"{type(e).__name__}: {e}\n{traceback.format_exc(limit=5)}",
             ) from e
+        font_left_on = self.vt.altfont  # SGR 11 (IBM-PC font) still active from an earlier frame
         data = self.feed()
         self.exp, self.last_canvas, self.last_frame = exp, canvas, frame
         self.count("frames_drawn")
@@ -592,7 +593,12 @@ class Session:
             self.count("draws_without_output")
         self.observe_paths(exp, old_exp, data)
         self.pending_full = False
-        self.compare(exp, "draw")
+        try:
+            self.compare(exp, "draw")
+        except Found as f:
+            if font_left_on and "|glyph|" in f.sig and not any(cs == "U" for row in exp.items for (_b, _w, _a, cs) in row):
+                raise Found("C04|raw|glyph|ibmpc-font-left-on-by-previous-frame", f.msg) from f
+            raise
         if exp.has_c0:
             self.count("frames_with_c0_control")
         return True
